@@ -183,7 +183,8 @@ def _variant_edges(b, local, idx, depth=0, conveyors=False):
             out += _variant_edges(b, t['dest']['l'], idx, depth + 1, conveyors)     # Err -> Break(1), Ok -> Continue(0)
         elif conveyors and t['k'] == 'call' and 'q' in t['callee'] and t['args'] and t['args'][0]['k'] in ('copy', 'move') and \
                 not t['args'][0]['pl']['p'] and t['args'][0]['pl']['l'] == local and not t['dest']['p'] and \
-                callee_q(t).split('::')[-1] in ('context', 'with_context', 'map_err', 'map') and b.lty(t['dest']['l']).get('adt') == b.lty(local).get('adt'):
+                callee_q(t).split('::')[-1] in ('context', 'with_context', 'map_err', 'map', 'copied', 'cloned', 'as_ref', 'as_deref', 'as_mut') and \
+                b.lty(t['dest']['l']).get('adt') == b.lty(local).get('adt'):
             out += _variant_edges(b, t['dest']['l'], idx, depth + 1, conveyors)   # Err stays Err, Ok stays Ok
     return out
 
